@@ -10,6 +10,8 @@ from ..store import compose
 from ..summaries import summarize
 from .common import find_entry, interiors, rename_fields, short
 
+CASE_SPLIT = True     # orderings between different grid sizes are analysed case by case (regions.run_under_size_cases)
+
 
 def no_scratch_dependence(rep, what, sm, names):
     """field + step*flux(field) is a function of the field, the velocity and the step only: on no cell (ring included) may the
